@@ -70,6 +70,7 @@ def run(prog, tier, extra=None):
     R6 = res.rule("C06.merkle-covers-all", "every carried transaction contributes at least one leaf to the merkle tree", floor=1)
     R8 = res.rule("C06.leaf-fresh", "the transaction hash that becomes the merkle leaf and the signed message is recomputed from the content on every Block::generate", floor=3)
     R9 = res.rule("C06.leaf-from-content", "a transaction whose merkle leaf is not computed from its content (type SPV: the leaf is read from its signature bytes) is never accepted by Transaction::validate", floor=1)
+    R10 = res.rule("C06.tx-hash-coverage", "the transaction hash (merkle leaf and signed message) covers every input and output and everything that identifies the output an input spends", floor=8)
     R4 = res.rule("C06.verify-block", "verify_block forwards a fetched block only when decoded id and hash equal the advertised ones", floor=2)
 
     bv = BlockValidate(prog)
@@ -401,6 +402,49 @@ def run(prog, tier, extra=None):
             res.not_decided.append("C06.leaf-from-content: Transaction::validate has no branch on the SPV type; SPV-typed transactions are judged by the rules for user transactions")
         else:
             res.sample({"rule": R9, "spv_branches": [tvb.loc(b) for b, _ in spv_sites], "verdict": "every SPV branch leads to rejection"})
+
+    # R10: the leaf commits to a transaction only as far as Transaction::serialize_for_signature reads it. Needed: the scalar fields,
+    # every element of `from` and `to` (no thinning adaptor between the vectors and the per-slip serialisation), for an output its
+    # owner/amount/type, and for an input everything that goes into the UTXO key it spends (Slip::get_utxoset_key) - otherwise a
+    # relaying party can re-point the input at another output without touching leaf, root or block hash.
+    SLP = CORE + "consensus::slip::Slip::"
+    tsig = prog.body(TXP + "serialize_for_signature")
+    if tsig is None:
+        raise LookupError("Transaction::serialize_for_signature not found")
+    sig_bodies = [tsig] + [b_ for p_, b_ in prog.bodies.items() if p_.startswith(TXP + "serialize_for_signature::{closure") and not b_.is_promoted]
+    got_tx = reads_of(prog, TXP + "serialize_for_signature")
+    for fld in ("timestamp", "from", "to", "transaction_type", "data", "txs_replacements"):
+        res.instance(R10)
+        if fld not in got_tx:
+            res.add(Finding(R10, "C06.tx-hash-coverage|transaction|%s" % fld, "Transaction::serialize_for_signature does not read Transaction.%s: the field can be changed after signing "
+                            "without changing the merkle leaf" % fld, tsig.loc(0)))
+    THIN = ("filter", "filter_map", "skip", "skip_while", "take", "take_while", "step_by", "find", "nth", "last", "next", "rev_skip", "dedup", "dedup_by_key")
+    thin = [(b_, bb, (call_name(t) or "").rsplit("::", 1)[-1]) for b_ in sig_bodies for bb, t in b_.calls()
+            if (call_name(t) or "").rsplit("::", 1)[-1] in THIN and ("iter::" in (call_name(t) or "") or "Iterator" in (call_name(t) or ""))]
+    res.instance(R10)
+    if thin:
+        b_, bb, n = thin[0]
+        res.add(Finding(R10, "C06.tx-hash-coverage|thinned|%s" % n, "Transaction::serialize_for_signature passes the inputs/outputs through `%s` before serialising them: the slips it drops "
+                        "are not covered by the merkle leaf or the transaction signature and can be edited in a signed block" % n, b_.loc(bb)))
+    else:
+        res.sample({"rule": R10, "transaction_fields": sorted(got_tx), "verdict": "all slips serialised, no thinning adaptor"})
+    key_fields = reads_of(prog, SLP + "get_utxoset_key")
+    in_fields = reads_of(prog, SLP + "serialize_input_for_signature")
+    out_fields = reads_of(prog, SLP + "serialize_output_for_signature")
+    if not key_fields:
+        raise LookupError("Slip::get_utxoset_key reads no field")
+    for fld in sorted(key_fields):
+        res.instance(R10)
+        if fld not in in_fields:
+            res.add(Finding(R10, "C06.tx-hash-coverage|input|%s" % fld, "an input's %s is part of the UTXO key it spends (Slip::get_utxoset_key) and travels on the wire, but "
+                            "Slip::serialize_input_for_signature does not cover it: a relaying party can re-point the input of a signed transaction in a signed block at another "
+                            "unspent output with the same remaining fields; leaf, root, block hash and both signatures stay valid" % fld,
+                            prog.body(SLP + "serialize_input_for_signature").loc(0)))
+    for fld in ("public_key", "amount", "slip_type"):
+        res.instance(R10)
+        if fld not in out_fields:
+            res.add(Finding(R10, "C06.tx-hash-coverage|output|%s" % fld, "Slip::serialize_output_for_signature does not cover an output's %s" % fld,
+                            prog.body(SLP + "serialize_output_for_signature").loc(0)))
 
     vb = prog.body(CORE + "verification_thread::VerificationThread::verify_block::{closure#0}")
     if vb is None:
